@@ -174,7 +174,8 @@ pub fn generate(group: &str, seed: u64, n: usize) -> Vec<Value> {
                 }
                 let c = combos[r.below(combos.len() as u64) as usize].clone();
                 let a = operand(&mut r, &c.1);
-                let b = operand(&mut r, &c.2);
+                // an operand combined with itself (squares, x - x): identical term vectors, repeated ids included
+                let b = if c.1 == c.2 && r.chance(1, 6) { a.clone() } else { operand(&mut r, &c.2) };
                 out.push(ev("arith", format!("d-arith-{k}"), json!({"op":c.0,"a":a,"b":b})));
             }
         }
